@@ -516,6 +516,27 @@ func runC20(c c20Case) *vh.Outcome {
 		close(stopCross)
 		cwg.Wait()
 		info.SignOK = int(sok)
+		if c.SlowSetup {
+			// a Sign that is given up while its signer is still being set up; then - between sessions, as an application may -
+			// the stored data is set again, while whatever the given-up Sign left behind winds down
+			ctx, cancel := context.WithTimeout(context.Background(), 15*time.Millisecond)
+			var gwg sync.WaitGroup
+			for _, id := range all {
+				id := id
+				gwg.Add(1)
+				go func() {
+					defer gwg.Done()
+					_, _ = parties[id].Sign(ctx, signInput, "c20-topic-given-up")
+				}()
+			}
+			gwg.Wait()
+			cancel()
+			for _, id := range all {
+				parties[id].SetStoredData(shares[id])
+			}
+			time.Sleep(60 * time.Millisecond)
+			o.Classes = append(o.Classes, "stored-data-set-again-after-a-given-up-sign")
+		}
 	}
 	net.close()
 	earlyWG.Wait()
